@@ -59,6 +59,56 @@ def run_queries(cases):
     return [r["results"] for r in res]
 
 
+PB_TYPES = [("int32", "7"), ("bool", "true"), ("string", '"s"'), ("(int32, bool)", "(1, false)"), ("Vec[int32]", "vec_new()"), ("Qd", "Qd { w: 2 }")]
+
+
+def pattern_binder_program(rng):
+    """-> (program text, [(binder name, type text)]): every binder occurs in one pattern and is used once; names are unique in the text"""
+    n = [0]
+    binders = []
+
+    def b(ty):
+        n[0] += 1
+        name = "zq%dk" % n[0]
+        binders.append((name, ty))
+        return name
+
+    fts = [rng.choice(PB_TYPES) for _ in range(3)]
+    v1, v2a, v2b = rng.choice(PB_TYPES), rng.choice(PB_TYPES), rng.choice(PB_TYPES)
+    t1, t2, t3 = rng.choice(PB_TYPES), rng.choice(PB_TYPES), rng.choice(PB_TYPES)
+    c1, c2 = rng.choice(PB_TYPES), rng.choice(PB_TYPES)
+    g1, g2 = rng.choice(PB_TYPES), rng.choice(PB_TYPES)
+    lines = ["struct Qd { w: int32 }", "struct Pt { fa: %s, fb: %s, fc: %s }" % tuple(t for t, _ in fts), "enum En { V0, V1(%s), V2(%s, %s) }" % (v1[0], v2a[0], v2b[0])]
+    gp1, gp2 = b(g1[0]), b(g2[0])
+    lines.append("fn gfun(%s: %s, %s: %s) -> %s { let _ = %s; %s }" % (gp1, g1[0], gp2, g2[0], g1[0], gp2, gp1))
+    lines.append("fn main() {")
+    lines.append("    let p = Pt { fa: %s, fb: %s, fc: %s };" % tuple(v for _, v in fts))
+    lines.append("    let e = %s;" % rng.choice(["V0", "V1(%s)" % v1[1], "V2(%s, %s)" % (v2a[1], v2b[1])]))
+    lines.append("    let t: (%s, (%s, %s)) = (%s, (%s, %s));" % (t1[0], t2[0], t3[0], t1[1], t2[1], t3[1]))
+    # shorthand fields bind the field name itself: use renamed fields for two of them and shorthand for the others, in random mix
+    short = rng.sample(["fa", "fb", "fc"], rng.randint(1, 3))
+    pats, uses = [], []
+    for fname, (ty, _) in zip(["fa", "fb", "fc"], fts):
+        if fname in short:
+            binders.append((fname + "(?= *[,}])", ty))  # the shorthand occurrence inside the pattern only
+            pats.append(fname)
+        else:
+            x = b(ty)
+            pats.append("%s: %s" % (fname, x))
+            uses.append(x)
+    lines.append("    let _ = match p { Pt { %s } => { %s 0 } };" % (", ".join(pats), " ".join("let _ = %s;" % u for u in uses)))
+    x1, x2, x3 = b(v1[0]), b(v2a[0]), b(v2b[0])
+    lines.append("    let _ = match e { V0 => 0, V1(%s) => { let _ = %s; 1 }, V2(%s, %s) => { let _ = %s; let _ = %s; 2 } };" % (x1, x1, x2, x3, x2, x3))
+    y1, y2, y3 = b(t1[0]), b(t2[0]), b(t3[0])
+    lines.append("    let _ = match t { (%s, (%s, %s)) => { let _ = %s; let _ = %s; let _ = %s; 0 } };" % (y1, y2, y3, y1, y2, y3))
+    z1, z2 = b(c1[0]), b(c2[0])
+    lines.append("    let clo = |%s: %s, %s: %s| { let _ = %s; %s };" % (z1, c1[0], z2, c2[0], z2, z1))
+    lines.append("    let _ = clo(%s, %s);" % (c1[1], c2[1]))
+    lines.append("    let _ = gfun(%s, %s);" % (g1[1], g2[1]))
+    lines.append("    ()\n}")
+    return "\n".join(lines) + "\n", binders
+
+
 def norm_ty(s):
     return re.sub(r"\s+", "", s)
 
@@ -147,6 +197,34 @@ def check(run):
                 else:
                     wits.append({"kind": "hover on a binder reports %r, the compiler assigned %r" % (r.get("ok", r.get("err")), ty), "text": p, "line": q[1], "col": q[2]})
         shutil.rmtree(root, ignore_errors=True)
+        # ---- 2b. hover on pattern, closure and function parameter binders whose type is known by construction ----
+        pcases, pexp = [], []
+        for _ in range(15 if run.tier == "quick" else 250):
+            text, binders = pattern_binder_program(rng)
+            qs, tys = [], []
+            for name, ty in binders:
+                pat = name if "(" in name else r"\b%s\b" % name
+                for m in re.finditer(pat if "(" not in name else r"(?<=[{,] )" + name, text):
+                    off = m.start()
+                    name = m.group(0)
+                    line = text.count("\n", 0, off)
+                    col = off - (text.rfind("\n", 0, off) + 1)
+                    for c in {col, col + len(name) - 1}:
+                        qs.append(("hover", line, c))
+                        tys.append(ty)
+            pcases.append((text, qs))
+            pexp.append(tys)
+        stats["hover_pattern_binders"] = 0
+        for (text, qs), tys, rs in zip(pcases, pexp, run_queries(pcases)):
+            for q, ty, r in zip(qs, tys, rs):
+                stats["hover_binders"] += 1
+                stats["hover_pattern_binders"] += 1
+                if "panic" in r:
+                    continue
+                if "ok" in r and norm_ty(r["ok"]) == norm_ty(ty):
+                    stats["hover_agree"] += 1
+                else:
+                    wits.append({"kind": "hover on a binder reports %r, its type is %r" % (r.get("ok", r.get("err")), ty), "text": text, "line": q[1], "col": q[2]})
         # ---- 3. completions name things that exist ------------------------------------------------------
         ccases, cinfo = [], []
         for _ in range(30 if run.tier == "quick" else 400):
